@@ -177,7 +177,8 @@ def plan(tier, seed):
     return [{"seed": seed * 2503 + i * 7368787 + 29,
              "subprocess": 40 if tier == "quick" else 1300,
              "inprocess": 650 if tier == "quick" else 19000,
-             "loops": 3 if tier == "quick" else 40} for i in range(n_shards)]
+             "loops": 3 if tier == "quick" else 40,
+             "faults": 4 if tier == "quick" else 60} for i in range(n_shards)]
 
 
 def run_shard(spec):
@@ -256,6 +257,35 @@ def run_shard(spec):
                 B.bump(obs.setdefault("argument_forms", {}), form + ":usage-error")
                 continue
         judge(kind, text, label, argv, channel, got, "inprocess" if form == "after-command" else "inprocess:" + form)
+    # output faults: stdout that cannot take the text (no space left on the device).  Nothing was
+    # delivered, so the exit status must not be 0.
+    for i in range(spec.get("faults", 0)):
+        if not os.path.exists("/dev/full"):
+            break
+        g = canon.DocGen(rng, hyphen=False, max_entries=4)
+        text = canon.render(g.doc(wrappers=rng.choice(["bare", "formals", "call"]), layers=0))
+        argv = rng.choice([["set", "faultKey", "42"], ["test"], ["rm", "absentKey"]])
+        if argv[0] == "rm":
+            dv = A.decode(text)
+            names = [b.path[0] for b in dv.target.bindings if b.kind == "bind" and len(b.path) == 1] if dv.target else []
+            if not names:
+                continue
+            argv = ["rm", M.quote_segment(rng.choice(names))]
+        repo = os.environ.get("NIMA_REPO", "/repo")
+        env = dict(os.environ, PYTHONPATH=repo, PYTHONDONTWRITEBYTECODE="1")
+        try:
+            with open("/dev/full", "w") as full:
+                cp = subprocess.run([PY, "-m", "nix_manipulator"] + argv, input=text.encode("utf-8"),
+                                    stdout=full, stderr=subprocess.PIPE, env=env, timeout=120, cwd=repo)
+        except subprocess.TimeoutExpired:
+            res["inconclusive"] += 1
+            continue
+        res["evaluations"] += 1
+        B.bump(obs.setdefault("output_fault_runs", {}), argv[0])
+        if cp.returncode == 0:
+            B.record(res, {"effect": "exit-0-although-output-could-not-be-written", "command": argv[0]},
+                     {"text": text, "argv": argv, "channel": "stdin", "stdout": "/dev/full"},
+                     f"status 0, stderr={cp.stderr.decode('utf-8', 'replace')[-200:]!r}")
     # redirect-over-file loop
     for i in range(spec["loops"]):
         g = canon.DocGen(rng, hyphen=False, max_entries=4)
